@@ -38,7 +38,11 @@ def main(argv=None):
         mod.run(ctx)
         if args.tier == 'thorough' and hasattr(mod, 'run_thorough'):
             mod.run_thorough(ctx)
-        return finish(ctx, t0, mod.EXPLANATION, mod.TECHNIQUE)
+        try:
+            return finish(ctx, t0, mod.EXPLANATION, mod.TECHNIQUE)
+        except AnalysisError as e:
+            print(f'ANALYSIS-ERROR property={prop}: {e}')
+            return 2
     except AnalysisError as e:
         print(f'ANALYSIS-ERROR property={prop}: {e}')
         return 2
